@@ -19,6 +19,16 @@ CHECKS = {
          "Every history of length <= 2 (quick) / <= 3 (thorough) over 12 steps (8 apply calls incl. multi-entry call and transaction, Sync, close+reopen, snapshot install in both formats), from a never-opened table; for every FS operation boundary the history is re-run with durability frozen there, unsynced state dropped, the table reopened and compared with the model prefix at the reported index, then the rest of the log re-applied; thorough adds a second crash at every operation of recovery.",
          "Trusted: pebble strict MemFS implements the stated fault model; refkv. No torn writes within a synced file; real disks not modelled.",
          "DESIGN.md section 4, C04"),
+ "C05": ("model_checking",
+         "exhaustive schedule enumeration over harness-stepped real leader/follower engines with observation at every follower apply",
+         "Every schedule of length <= 3 (quick) / <= 5 (thorough, time-capped) over 11 events (6 kinds of leader writes incl. non-idempotent transaction and 100 KiB put, follower poll, snapshot recovery, leader snapshot+log compaction keeping 0/1 entries, follower engine restart) x message limits {1 B, 300 B, default} x leader log cache {0,2}: real engines, real LogServer/SnapshotServer over gRPC, real replication worker stepped one poll/recovery at a time; at every follower apply and after every event the follower's content must equal the leader content recorded at the follower's leader index, which never decreases; then bounded polls reach the leader state; table sets converge under reconcile for every create/delete/reconcile sequence up to length 4.",
+         "Trusted: single-node dragonboat clusters as a black box; quiescence between events by polling with generous deadlines (misses are inconclusive). states = distinct observed (leader writes, follower index, follower content); all traces are implementation traces.",
+         "DESIGN.md section 4, C05"),
+ "C17": ("exploration",
+         "exhaustive enumeration of methods x authorization variants on the real binaries and of client certificates x TLS option combinations",
+         "4 token configurations x {leader, follower} real `regatta` processes x every method of Tables and Maintenance (+ KV/Cluster controls) x 14 authorization variants; 14 client certificate kinds x 16 TLS option combinations through real handshakes against security.TLSInfo.ServerConfig().",
+         "Trusted: crypto/tls, crypto/x509 (VerifyHostname is the reference for hostname validity); mutating calls are never sent with the right token.",
+         "DESIGN.md section 4, C17"),
  "C06": ("model_checking",
          "explicit-state BFS over (log, compaction marker, applied index, cache run, capacity); transitions call the real readers and LogServer.Replicate",
          "All reachable states up to BFS depth 7 (quick; log <= 4 entries, cache capacities 1,2) / 9 (thorough; <= 5 entries, capacities 1,2,3,8) of a model Raft log (4 entry types) with the REAL Simple/Cached readers, ShardCache and LogServer.Replicate on top; every query start index x 4 size limits checked in every state against: consecutive entries from the requested index, none beyond applied, use-snapshot / leader-behind / empty batch answers, cache transparency, at least one entry.",
